@@ -135,5 +135,45 @@ func allChecks() []*Check {
 			Bounds: "well-formed forests of N rows / programs of N nodes (quick 4, thorough 6). Reader: fails with a fresh error after k delivered rows, k symbolic in 0..N, routes iterator/non-iterator text, JSON, YAML, dry-run, walk. Writer: refuses write number j, j symbolic in 0..N (N = past the last write: never), modes text (both routes), JSON, YAML, TOML (single root), dry-run report, From-Root text (fused printer), From-Root JSON, MkdirFromRoot dry-run report on color.Output. Short writes that return a nil error violate io.Writer's contract and are not modelled. Massive mode: C11.",
 			Assume: append([]string{parseContract, pathContract, encStub, "fatih/color under NoColor (Sprint is concatenation); bufio.Writer modelled as buffer + one Write at Flush"}, commonAssume...),
 		},
+		{
+			ID:    "C12",
+			Files: files([]string{"gtree/common.go"}, filesVFS, []string{"gtree/c12.go"}),
+			Quick: []Job{
+				{Name: "C12.empty", Pkg: "gtree", Entry: "VerifC12Empty", N: 0, FSModel: true, Expect: []string{"C12.empty.nil", "C12.empty.nothing", "C12.empty.end"}},
+				{Name: "C12.rows.1x3", Pkg: "gtree", Entry: "VerifC12Rows", N: 13, FSModel: true, RealParse: true, Expect: []string{"C12.returned", "C12.empty.nil", "C12.accepted.nonempty"}},
+			},
+			Thorough: []Job{
+				{Name: "C12.empty", Pkg: "gtree", Entry: "VerifC12Empty", N: 0, FSModel: true, Expect: []string{"C12.empty.nil", "C12.empty.nothing", "C12.empty.end"}},
+				{Name: "C12.rows.1x4", Pkg: "gtree", Entry: "VerifC12Rows", N: 14, FSModel: true, RealParse: true, Expect: []string{"C12.returned", "C12.empty.nil", "C12.accepted.nonempty"}},
+				{Name: "C12.rows.2x2", Pkg: "gtree", Entry: "VerifC12Rows", N: 22, FSModel: true, RealParse: true, Expect: []string{"C12.returned", "C12.empty.nil", "C12.accepted.nonempty"}},
+				{Name: "C12.rows.1x2.allbytes", Pkg: "gtree", Entry: "VerifC12Rows", N: 112, FSModel: true, RealParse: true, Expect: []string{"C12.returned", "C12.empty.nil"}},
+			},
+			Bounds: "byte level, real parser: documents of 1 row of 0..3 (quick) / 0..4 (thorough) arbitrary ASCII bytes, 2 rows of 0..2 bytes, 1 row of 0..2 bytes over all 256 values (no \\n: the scanner never delivers one), through 8 sequential entry points (text both routes, JSON, YAML, dry-run, walk, mkdir and verify on the file-system model); plus, at tree level, the empty document and 1..3 blank rows on 9 entry points. A panic or an exceeded step budget (3e6 SSA instructions) on any feasible path is a violation; this is also built into every harness of every other property. Outside: longer rows / more rows at byte level (the DESIGN's 3x5 bound is out of reach: 2 rows x 3 bytes did not finish in 30 min), over-long lines (ErrTooLong only as a symbolic scanner error in C14), massive mode (C10/C11).",
+			Assume: append([]string{fsModel, "real std strings/path/filepath/io/fs code executed on symbolic bytes (leaf intrinsics: bytealg.IndexByteString, CountString, MakeNoZero)"}, commonAssume...),
+		},
+		{
+			ID:    "C15",
+			Files: []string{"markdown/lparse.go", "gtree/common.go", "gtree/c15.go"},
+			Quick: []Job{
+				{Name: "C15.LParse.2", Pkg: "markdown", Entry: "VerifLParse", N: 2, RealParse: true, Expect: []string{"LP.accept", "LP.hierarchy", "LP.text", "LP.next", "LP.end"}},
+				{Name: "C15.LHeading.2", Pkg: "markdown", Entry: "VerifLHeading", N: 2, RealParse: true, Expect: []string{"LH.accept", "LH.root", "LH.text", "LH.next"}},
+				{Name: "C15.LMalformed.1", Pkg: "markdown", Entry: "VerifLMalformed", N: 1, RealParse: true, Expect: []string{"LM.nobullet", "LM.emptytext", "LM.badindent", "LM.mixed", "LM.blank"}},
+				{Name: "C15.LAny.3", Pkg: "markdown", Entry: "VerifLAny", N: 3, RealParse: true, Expect: []string{"LA.oneof", "LA.hierarchy", "LA.text", "LA.errclass"}},
+				{Name: "C15.same.3", Pkg: "gtree", Entry: "VerifC15Same", N: 3, RealParse: true, Expect: []string{"C15.canon.nil", "C15.spelling.nil", "C15.same"}},
+				{Name: "C15.same.sym2", Pkg: "gtree", Entry: "VerifC15Same", N: 102, RealParse: true, Expect: []string{"C15.canon.nil", "C15.spelling.nil", "C15.same"}},
+			},
+			Thorough: []Job{
+				{Name: "C15.LParse.3.full", Pkg: "markdown", Entry: "VerifLParse", N: 103, RealParse: true, Expect: []string{"LP.accept", "LP.hierarchy", "LP.text", "LP.next", "LP.end"}},
+				{Name: "C15.LParse.2.allbytes", Pkg: "markdown", Entry: "VerifLParse", N: 12, RealParse: true, Expect: []string{"LP.accept", "LP.hierarchy", "LP.text", "LP.next", "LP.end"}},
+				{Name: "C15.LHeading.3", Pkg: "markdown", Entry: "VerifLHeading", N: 3, RealParse: true, Expect: []string{"LH.accept", "LH.root", "LH.text", "LH.next"}},
+				{Name: "C15.LMalformed.2", Pkg: "markdown", Entry: "VerifLMalformed", N: 2, RealParse: true, Expect: []string{"LM.nobullet", "LM.emptytext", "LM.badindent", "LM.mixed", "LM.blank"}},
+				{Name: "C15.LAny.4", Pkg: "markdown", Entry: "VerifLAny", N: 4, RealParse: true, Expect: []string{"LA.oneof", "LA.hierarchy", "LA.text", "LA.errclass"}},
+				{Name: "C15.same.4", Pkg: "gtree", Entry: "VerifC15Same", N: 4, RealParse: true, Expect: []string{"C15.canon.nil", "C15.spelling.nil", "C15.same"}},
+				{Name: "C15.same.blank3", Pkg: "gtree", Entry: "VerifC15Same", N: 13, RealParse: true, Expect: []string{"C15.canon.nil", "C15.spelling.nil", "C15.same"}},
+				{Name: "C15.same.sym2", Pkg: "gtree", Entry: "VerifC15Same", N: 102, RealParse: true, Expect: []string{"C15.canon.nil", "C15.spelling.nil", "C15.same"}},
+			},
+			Bounds: "L-parse (real Parser.Parse, one inductive step from every state an accepted prefix can leave: fresh / after a root / after root+child (unit learnt) / after root+child+root, each with and without a leading heading): notation = indent char space|tab x unit 1..4 x bullet -,*,+ per row x # roots or not; row depth 0..3; names of 2 (quick) / 3 (thorough) arbitrary ASCII bytes, 2 bytes over all 256 values (thorough); headings #..### with/without the space; malformation classes no-bullet, empty text, indentation not a multiple of the unit, mixed tabs/spaces, whitespace-only; arbitrary rows of 3/4 bytes (result/err exclusive, text non-empty). End to end (real parser + real tree code, text output): forests of 3 (quick) / 4 (thorough) rows, canonical spelling vs every member of the notation family, with a blank row at any position (thorough), with the first byte of every name symbolic for 2 rows. CRLF and the final newline are the scanner's contract (trusted). Assumed: heading names have no leading/trailing blanks and no leading '#'. Tree-level insensitivity to blank rows: C01; the splitter (massive mode): C10.",
+			Assume: append([]string{"real std strings code executed on symbolic bytes (leaf intrinsics: bytealg.IndexByteString, CountString, MakeNoZero; 256-entry tables as ite chains)"}, commonAssume...),
+		},
 	}
 }
